@@ -19,6 +19,11 @@ open Depccg Str Search GlueRun Lazy Print Cli LazyProps
 def fmtFits (en : Bool) : Fmt → Bool
   | .prologEn => en
   | .prologJa => !en
+  -- the XML formats refuse text that is not XML text (`Xml.xmlStrOk`: control characters in a word
+  -- or a category name make `element.set` raise); their totality is not claimed at this level
+  | .xml => false
+  | .jiggEn => false
+  | .jiggJa => false
   | _ => true
 
 def MainTotalStatement : Prop :=
